@@ -411,7 +411,7 @@ def _subset(reps, k):
     return sorted(set(reps[int(round(i * step))] for i in range(k)))
 
 
-def legs(tier):
+def legs(tier, for_replay=False):
     quick = tier == 'quick'
     seed = int(os.environ.get('VERIF_SEED', '0') or 0)
     for N in (1, 2):
@@ -437,7 +437,8 @@ def legs(tier):
     out.append(Leg('density_matrix', fn_density, it, chunk=240, src_states=48 + 34560, bound='all tableaux N<=2'))
     # N=3 supplement
     b3 = 60 if quick else 600
-    _n3(b3)
+    if not for_replay:
+        _n3(b3)          # computed before the workers fork
     out.append(Leg('N3', fn_n3, [[b3, i, L] for i in range(b3) for L in (1, 2)], chunk=4, exhaustive=False, supplementary=True,
                    bound='%d N=3 states from a deterministic BFS (half of them with sign patterns), sample(L<=2) under every coin string and density_matrix' % b3))
     # shadows: fixed circuits
@@ -465,27 +466,27 @@ def legs(tier):
                          'rejection); nsample=2 with rejection-free sampler coins on %s' % ('3 of the 7' if quick else 'all 7; global_rcc also on all 48 tableaux')))
     # shadows: random circuits N=2
     it = []
-    nglob = 8 if quick else len(reps[2])
-    sub = _subset(reps[2], nglob)
-    sub16 = _subset(reps[2], 16)
     for j, i in enumerate(reps[2]):
         for k in (((5, 10)[j % 2],) if quick else range(16)):
             it.append([2, i, 'onsite_rcc', 1, [], list(bits(k, 4)), 0])
+    out.append(Leg('shadow_onsite_N2', fn_shadow, it, chunk=1, src_states=len(reps[2]), exhaustive=not quick, supplementary=quick, timeout=3000,
+                   bound='N=2 onsite_rcc on one tableau per density matrix (91) x %s sign strings x every rejection-free sampler coin string (mass 0.56) x every '
+                         'measurement coin string' % ('1 of 16 (capped in quick)' if quick else 'all 16')))
+    it = []
+    nglob = 8 if quick else len(reps[2])
+    sub = _subset(reps[2], nglob)
     for j, i in enumerate(sub):
         for k in (((6, 9)[j % 2],) if quick else (6, 9)):
             it.append([2, i, 'global_rcc', 1, [], list(bits(k, 4)), 0])
     if not quick:
-        for i in sub16:
+        for i in _subset(reps[2], 16):
             for k in (0, 3, 12, 15):
                 it.append([2, i, 'global_rcc', 1, [], list(bits(k, 4)), 0])
     nbw = 2 if quick else 16
     for i in _subset(reps[2], nbw):
         it.append([2, i, 'brickwall_rcc', 1, [], list(bits(9, 4)), 0])
-    full = not quick
-    out.append(Leg('shadow_random_N2', fn_shadow, it, chunk=1, src_states=len(reps[2]), exhaustive=full, supplementary=not full, timeout=3000,
-                   bound=('N=2, sampler coins rejection-free (mass 0.56 onsite / 0.70 global), every sampler and measurement coin string: onsite_rcc on one tableau '
-                          'per density matrix (91) x %s sign strings; global_rcc(2) on %d of the 91 representatives x %s sign strings%s; '
-                          'brickwall_rcc(2,1) on %d representatives x 1 sign string' % (
-                              '1 of 16' if quick else 'all 16', len(sub), '1 of 16' if quick else '2 of 16',
-                              '' if quick else ' (+4 more sign strings on 16 representatives)', nbw))))
+    out.append(Leg('shadow_global_N2', fn_shadow, it, chunk=1, src_states=len(sub), exhaustive=False, supplementary=True, timeout=3000,
+                   bound=('N=2 global_rcc on %d of the 91 representatives x %s of the 16 sign strings%s, brickwall_rcc(2,1) on %d representatives x 1 sign string: '
+                          'every rejection-free sampler coin string (mass 0.70) x every measurement coin string (capped: sign strings and base states)' % (
+                              len(sub), '1' if quick else '2', '' if quick else ' (+4 more sign strings on 16 representatives)', nbw))))
     return out
